@@ -85,7 +85,7 @@ class ClientRun:
             return
         self.last = p
         subs, self.step_subs = self.step_subs, []
-        self.rows.append({"c": cause, "a": args, "t": w.now_ms(), "pi": p[0], "sts": list(p[1]), "dn": done, "wn": len(writes), "w": writes, "sub": subs, "q": idle, "ns": len(self.user_stops)})
+        self.rows.append({"c": cause, "a": args, "t": w.now_ms(), "pi": p[0], "sts": list(p[1]), "dn": done, "wn": len(writes), "w": writes, "sub": subs, "q": idle, "ns": len(self.user_stops), "sa": [bool(x) for x in self.user_stops]})
 
     def _after_callback(self, handle) -> None:
         if self.cur is not None:
@@ -247,12 +247,18 @@ class ClientRun:
         hello = [m for m in ms if m["k"] == "hello"]
         # a HelloResponse carries the device's name: logged with the connection it is for
         cause, args = ("EnvHello", {"e": "chunk", "ks": [m["k"] for m in ms], "i": 0, "n": hello[0].get("name", "")}) if hello else ("env", {"e": "chunk", "ks": [m["k"] for m in ms]})
+        discreq = any(m["k"] == "discreq" for m in ms)
+        if discreq:
+            # the device's disconnect request: an expected end of the connection it is sent to
+            cause, args = "EnvDiscReq", {"e": "chunk", "ks": [m["k"] for m in ms], "i": 0}
 
         def fn():
             c, tr = w.codec, w.tr
             if c is None or tr is None or not tr.can_receive() or (c.noise and not c.nd.handshake_done):
                 return False
-            if hello:
+            if discreq:
+                args["i"] = self._owner_of(tr)
+            elif hello:
                 i = self._owner_of(tr)
                 conn = self.conns[i - 1] if i else None
                 # only the first HelloResponse of a connection that is waiting for it counts (i = 0: an unsolicited one)
@@ -571,6 +577,8 @@ def tokens_to_schedule(cfg: dict, toks: list, variant: int) -> list:
                     sch += pre + [[("ev", "chunk", [HELLO_BAD])], [("ev", "chunk", [HELLO_OK, CONNECT_BAD])], [("ev", "eof")]][(n + variant) % 3] + g
         elif k == "progress":
             sch += ([("ev", "handshake")] if cfg.get("noise") else [("iter", 2)]) + g
+        elif k == "close" and len(t) > 1 and t[1] == "discreq":
+            sch += [("ev", "chunk", [{"k": "discreq"}])] + g
         elif k == "close":
             sch += [[("ev", "eof")], [("ev", "chunk", [{"k": "discreq"}])], [("ev", "reset"), ("iter", 1)], [("ev", "chunk", [{"k": "garbage"}])]][(n + variant) % 4] + g
         elif k == "writefail":
